@@ -688,6 +688,10 @@ func (vc *FnVC) checkWrite(comp, ref, idx, what string, pos token.Pos) {
 		}
 		cond = "(or " + cond + " " + strings.Join(fr, " ") + ")"
 	}
+	// objects that did not exist at entry (allocated by this activation or its callees)
+	// are invisible to the caller: writing them needs no permission
+	vc.decl("allocated0", "(declare-fun allocated0 (Int) Bool)")
+	cond = fmt.Sprintf("(or %s (not (allocated0 %s)))", cond, ref)
 	vc.obAssert("frame", "frame@"+what, "write to "+what+" is permitted by the modifies clause", cond, pos)
 }
 
